@@ -394,6 +394,18 @@ func c12Run(e *core.Env, root string, sc *c12Scen, form c12Form, pre *c12Pre) c1
 	return o
 }
 
+// c12FlipLastLetter returns b with the case of its last ASCII letter flipped.
+func c12FlipLastLetter(b []byte) []byte {
+	d := append([]byte{}, b...)
+	for i := len(d) - 1; i >= 0; i-- {
+		if c := d[i]; c >= 'a' && c <= 'z' || c >= 'A' && c <= 'Z' {
+			d[i] = c ^ 0x20
+			break
+		}
+	}
+	return d
+}
+
 var c12Absent = &c12Pre{Class: "absent", Label: "absent", Absent: true}
 
 // c12CleanRef observes run(version | absent) twice in fresh state.
@@ -642,6 +654,10 @@ func c12PreStates(sc *c12Scen, clean []byte, stale map[string][]byte, r *rand.Ra
 		add("crlf", "output(S) with CRLF line endings", "crlf-all", crlf, true)
 		add("crlf", "output(S) with one CRLF line", "crlf-one", bytes.Replace(clean, []byte("\n"), []byte("\r\n"), 1), true)
 		add("crlf", "output(S) with CRLF line endings, cut short", "crlf-trunc", crlf[:len(crlf)*2/3], false)
+		// the old output differs from the new one in LETTER CASE only (an identifier respelled since: HomeUrl ->
+		// HomeURL): same length, equal under case folding, still has to be replaced
+		add("casefold", "output(S) in upper case", "casefold-upper", bytes.ToUpper(clean), true)
+		add("casefold", "output(S) with the case of its last identifier letter flipped", "casefold-one", c12FlipLastLetter(clean), true)
 		// the old output with something IN FRONT of its generated header (a licence header added by a
 		// tool, a hand-added build line, blank lines): nothing of it may survive into the new output
 		for i, head := range []string{"// Copyright 2026 ACME Corp. All rights reserved.\n\n", "//go:build !never\n\n", "// junk\n// more junk\n", "\n\n", "/* block */\n"} {
